@@ -126,6 +126,24 @@ pub fn run<K: Kmer + Send + Sync>(c: &GCase) -> Outcome {
     let mut pruned = unpruned.clone();
     debruijn::filter::remove_censored_exts(c.stranded, &mut pruned);
     entry_points::<K>(&mut o, "pruned", c.stranded, &pruned, &m.pruned);
+    // a join predicate that refuses many joins (ids of the two k-mers must not sum to a multiple of 3):
+    // whatever the predicate, no k-mer may be lost or duplicated
+    {
+        struct IdSpec;
+        impl CompressionSpec<u32> for IdSpec {
+            fn reduce(&self, a: u32, _b: &u32) -> u32 {
+                a
+            }
+            fn join_test(&self, a: &u32, b: &u32) -> bool {
+                (a + b) % 3 != 0
+            }
+        }
+        let tab_ids: Tab<K, u32> = pruned.iter().enumerate().map(|(i, (k, (e, _)))| (*k, (*e, i as u32))).collect();
+        let (_, gv) = finish_view(compress_kmers(c.stranded, &IdSpec, &tab_ids));
+        note(&mut o, "pruned/slice/refusing-predicate", check_lossless(&gv, &m.pruned, true));
+        let (_, gv) = finish_view(compress_kmers_with_hash(c.stranded, &IdSpec, &hash_of(&tab_ids)));
+        note(&mut o, "pruned/with_hash/refusing-predicate", check_lossless(&gv, &m.pruned, true));
+    }
     // k-mers without extensions
     {
         let keys: Vec<S> = m.kept.e.keys().cloned().collect();
@@ -138,7 +156,7 @@ pub fn run<K: Kmer + Send + Sync>(c: &GCase) -> Outcome {
     // every sub-table (arbitrary shard) of a small table, extensions untouched
     let sub = c.get("sub") as usize;
     let n = unpruned.len();
-    if n >= 2 && n <= sub {
+    if n >= 2 && n <= sub && o.ok() {
         o.flags |= flag::SPECIFIC;
         for mask in 1u32..(1 << n) - 1 {
             let st: Tab<K, u16> = unpruned.iter().enumerate().filter(|(i, _)| mask >> i & 1 == 1).map(|(_, x)| *x).collect();
